@@ -85,11 +85,12 @@ theorem mkConn_connOf (c : Option String) (h : connOK c = true) : mkConn (connOf
   rcases connOK_cases c h with h | h | h <;> subst h <;> decide
 
 theorem sepOf_cur (c : Option String) (h : connOK c = true) :
-    ∃ sep, sepOf cur.seps (connOf c) = some sep ∧ sepConn sep = some (connOf c) ∧ isPyOp sep = true := by
+    ∃ sep, sepOf cur.seps (connOf c) = some sep ∧ sepConn sep = some (connOf c) ∧ isPyOp sep = true ∧
+      pops sep sep = true := by
   rcases connOK_cases c h with h | h | h <;> subst h
-  · exact ⟨" & ", by decide, by decide, by decide⟩
-  · exact ⟨" | ", by decide, by decide, by decide⟩
-  · exact ⟨" ^ ", by decide, by decide, by decide⟩
+  · exact ⟨" & ", by decide, by decide, by decide, by decide⟩
+  · exact ⟨" | ", by decide, by decide, by decide, by decide⟩
+  · exact ⟨" ^ ", by decide, by decide, by decide, by decide⟩
 
 def kvT (k : String) (v : V) : V := .tuple (.cons (.str k) (.cons v .nil))
 
@@ -174,7 +175,7 @@ theorem out_nonbin (v : V) (p : Py) (hs : syntaxOk p = true) (hb : isBin p = fal
 
 theorem reparse_bin2 (o : String) (L R : Py) (hL : isBin L = false) (hR : isBin R = false) :
     reparseTop (.bin o L R) = .bin o (reparseTop L) (reparseTop R) := by
-  have := reparse_chain o L R [] hL (by simp [allNonBin, hR])
+  have := reparse_chain o L R [] hL (by simp [allNonBin, hR]) (by simp)
   simpa using this
 
 theorem wrap_isBin (v : V) (p : Py) (h : isComb v = false → isBin p = false) :
@@ -387,7 +388,7 @@ theorem good_toPyQ : ∀ (conn : Option String) (neg : Bool) (ch : VL), connOK c
     simp only [GoodQ, Bool.and_eq_true] at h
     obtain ⟨first, e1, hp1, hs1, hb1, he1, hk1⟩ := good_kid (connOf conn) c h.1
     obtain ⟨ps, evs, hps, hss, hbs, hes, hq, hks⟩ := good_kids (connOf conn) (.cons c2 rest) h.2
-    obtain ⟨sep, hsep, hsc, hop⟩ := sepOf_cur conn hc
+    obtain ⟨sep, hsep, hsc, hop, hpops⟩ := sepOf_cur conn hc
     -- the others are a non-empty list
     cases evs with
     | nil => simp [KidsEv] at hks
@@ -405,7 +406,7 @@ theorem good_toPyQ : ∀ (conn : Option String) (neg : Bool) (ch : VL), connOK c
       simp only [reparseTop]
       rw [chain_eq_foldl]
       simp only [pylToList] at hbs ⊢
-      exact reparse_chain sep first p2 (pylToList ps') hb1 hbs
+      exact reparse_chain sep first p2 (pylToList ps') hb1 hbs (fun _ => hpops)
     rw [hchain, evalPy_fold true sep (connOf conn) hsc (.cons p2 ps') (.cons e2 evs') _ e1 hes hq he1 hk1.1]
     simp only [vlFoldl]
     rw [qComb_first (connOf conn) c e1 c2 e2 hk1 hks.1,
